@@ -13,8 +13,8 @@ FUNCTIONS_ENCODED = ["Node._receive_message (dispatch, T-flag branch, AVP valida
                      "Node.send_message/_record_answer", "Node.route_answer", "Application.send_answer/generate_answer/receive_answer",
                      "validate_message_avps", "PeerConnection.__dispatch_message"]
 ASSUMPTIONS = ["connection states are constructed directly (over-approximation of the reachable pre-states)", "hop-by-hop ids of in-flight requests are connection-unique (as the property states)"]
-BOUNDS = {"quick": "one step: 7 connection states x 13 message kinds x 4 defect classes x handler raises or not; histories of depth 3 over 14 events incl. application answers submitted once or twice",
-          "thorough": "histories of depth 4; 2 connections"}
+BOUNDS = {"quick": "one step: 7 connection states x 18 message kinds x 5 defect classes x handler raises or not; every history of depth 2 over 17 events x 3 defect classes, depth 3 from 12 and depth 4 from 2 seeded first events over 8 core kinds (native after concretisation); the byte stream of 3 requests cut at every position; two queued answers on the write path with 1 preemption",
+          "thorough": "every history of depth 3 over the full alphabet, depth 4 from every first event over the core kinds"}
 OUTSIDE = ["histories deeper than 4", "3 connections"]
 
 PEER = B.PEER_HOSTS[0]
@@ -147,57 +147,60 @@ def history(ev: List[int], df: List[int]) -> bool:
     post: _
     """
     hx.begin()
+    # event kinds and defect classes are the only inputs: fix them (solver-decided bisection branches), then run natively
+    steps = [(EVENTS[hx.concretize_range(e, 0, len(EVENTS))], ["none", "no_origin_host", "t_flag"][hx.concretize_range(df[i], 0, 3)]) for i, e in enumerate(ev)]
+    bad = None
+    trace = []
     try:
-        b = B.Bench(n_peers=1, stats=True)
-        n, p, app = b.node, b.peers[0], b.apps[0]
-        c, s = b.make_ready(p)
-        ledger = []           # signatures of requests received and not yet answered
-        answered = []
-        delivered_seen = 0
-        trace = []
-        for i, e in enumerate(ev):
-            name = EVENTS[hx.concretize_range(e, 0, len(EVENTS))]
-            dv = hx.concretize_range(df[i], 0, 3)
-            d = ["none", "no_origin_host", "t_flag"][dv]
-            trace.append((name, d))
-            if name.startswith("app_answers"):
-                # the application answers the oldest delivered request (a second time: must not be transmitted)
-                pool = app.requests
-                if not pool:
-                    continue
-                req = pool[0]
-                try:
-                    app.send_answer(app.generate_answer(req, result_code=2001))
-                except B.NotRoutable:
-                    pass
-                if name.endswith("again"):
+        with hx.untraced():
+            b = B.Bench(n_peers=1, stats=True)
+            n, p, app = b.node, b.peers[0], b.apps[0]
+            c, s = b.make_ready(p)
+            ledger = []           # signatures of requests received and not yet answered
+            answered = []
+            for i, (name, d) in enumerate(steps):
+                trace.append((name, d))
+                if name.startswith("app_answers"):
+                    # the application answers the oldest delivered request (a second time: must not be transmitted)
+                    pool = app.requests
+                    if not pool:
+                        continue
+                    req = pool[0]
                     try:
                         app.send_answer(app.generate_answer(req, result_code=2001))
                     except B.NotRoutable:
                         pass
-            else:
-                # a T-flagged message repeats the end-to-end id of the last answered request
-                e2e = answered[-1][3] if (d == "t_flag" and answered) else 900 + i
-                msg = mk(name, 500 + i, e2e, d)
-                if msg.header.is_request:
-                    ledger.append(sig(msg))
-                app.sync_answer = {"ccr_sync_rc": "rc", "ccr_sync_no_rc": "no_rc"}.get(name)
-                try:
-                    b.inject(c, msg)
-                except Exception:
-                    pass
-            for m in drain(c):
-                if m.header.is_request:
-                    continue
-                sg = sig(m)
-                if sg in ledger:
-                    ledger.remove(sg)
-                    answered.append(sg)
+                    if name.endswith("again"):
+                        try:
+                            app.send_answer(app.generate_answer(req, result_code=2001))
+                        except B.NotRoutable:
+                            pass
                 else:
-                    return hx.check((ev, df), (trace, sg, "second answer" if sg in answered else "answers nothing received"), (trace, None, ""),
-                                    "transmitted answer does not match a received, unanswered request")
+                    # a T-flagged message repeats the end-to-end id of the last answered request
+                    e2e = answered[-1][3] if (d == "t_flag" and answered) else 900 + i
+                    msg = mk(name, 500 + i, e2e, d)
+                    if msg.header.is_request:
+                        ledger.append(sig(msg))
+                    app.sync_answer = {"ccr_sync_rc": "rc", "ccr_sync_no_rc": "no_rc"}.get(name)
+                    try:
+                        b.inject(c, msg)
+                    except Exception:
+                        pass
+                for m in drain(c):
+                    if m.header.is_request:
+                        continue
+                    sg = sig(m)
+                    if sg in ledger:
+                        ledger.remove(sg)
+                        answered.append(sg)
+                    elif bad is None:
+                        bad = (list(trace), sg, "second answer" if sg in answered else "answers nothing received")
+                if bad is not None:
+                    break
     except Exception as e:
         return hx.fail((ev, df), "raised " + type(e).__name__)
+    if bad is not None:
+        return hx.check((ev, df), bad, (bad[0], None, ""), "transmitted answer does not match a received, unanswered request")
     return hx.holds((ev, df), True, (trace,), "")
 
 
@@ -252,9 +255,8 @@ def specs(tier, seed, carve):
     rnd = random.Random(seed)
     firsts = [(e, d) for e in range(len(EVENTS)) for d in (0, 1, 2)]
     core = [EVENTS.index(x) for x in ("ccr_sync_no_rc", "dwr", "ccr", "ccr_missing_avp", "cea", "cca", "app_answers_oldest", "app_answers_oldest_again")]
-    plan = [(2, firsts, None), (3, rnd.sample(firsts, 6), core) if q else (3, firsts, None)]
-    if not q:
-        plan.append((4, firsts, core))
+    # histories run natively (~30 ms each): depth 3 from 12 and depth 4 from 2 seeded first events over the core alphabet already in the quick tier
+    plan = [(2, firsts, None), (3, rnd.sample(firsts, 12), core), (4, rnd.sample(firsts, 2), core)] if q else [(2, firsts, None), (3, firsts, None), (4, firsts, core)]
     for depth, fs, alpha in plan:
         for (e, d) in fs:
             out.append(dict(id="history/%d/%s%s" % (depth, EVENTS[e], ["", "-noOH", "-T"][d]), fn="history", params={"depth": depth, "first": e, "fd": d, "alpha": alpha},
